@@ -190,6 +190,8 @@ void parse_spec_line(const MtzToCif& m2c,
   std::string fmt = read_word(p, &p);
   if (!fmt.empty()) {
     if (fmt.size() == 1 && fmt[0] == 'S') {
+      if (tr.col_idx < 0)
+        fail("Spec error: status (S) needs an MTZ column, not a variable,\nin line: ", line);
       tr.is_status = true;
     } else {
       tr.min_width = check_format(fmt);
